@@ -12,7 +12,7 @@ from prosemirror.transform.transform import TransformError
 
 ID = "C17"
 CORR_MODULE = "Corr.C17"
-LEVEL = "exploration"
+LEVEL = "proof"
 SHARD = 80
 
 
